@@ -37,6 +37,8 @@ var c07Progs = []string{
 	`def f: ., (. + 1 | f); 0 | f`, `error`, `1, error, 2`, `try error catch .`, `(1, 2) as $x | $x, error`, `.[] as $x | $x`, `[.[] | tostring]`, `limit(0; 1)`, `empty`,
 	`label $a | label $b | 1, break $a, 2`, `first(empty)`, `[first(range(3))]`, `last(range(3))`, `nth(1; range(5))`, `any(range(5); . > 2)`, `all(range(3); . < 5)`,
 	`[.[] | if . > 1 then error else . end]?`, `.[] | (1 / .)?`, `try (1, error("x"), 3) catch .`, `[range(2)] | map(. + 1) | add`, `to_entries`, `[paths]`, `sort`, `while(. != null and length > 0; .[1:])`,
+	`path([1] | .[])`, `path({a: 1} | .[])`, `[path([1] | .[])]`, `try path([1] | .[]) catch .`, `path(1 | .[])`, `path([[1]] | .[0][])`, `path(. as $x | [1] | .[])`, `(1, 2) | path([3] | .[])`, `first(path([1] | .[]))`,
+	`.[] |= empty`, `path(..)`, `[paths]`, `path(.a[]?)`, `path(.[0] | .[]?)`, `path(getpath(["a"]) | .[])?`, `[.[] | path(.)]`, `path(.[] | select(. > 2))`,
 	`tostream`, `[splits("a")]?`, `input`, `$x`, `[$x, .]`, `getpath(["a"])?`, `ltrimstr(1)`, `{} | .a.b.c = 1`, `[1, [2]] | flatten`, `halt_error?`, `"\(1, 2) \(3, 4)"`,
 }
 
